@@ -194,8 +194,10 @@ def make_distance_matrix_from_adjacency_matrix(AG):
         representation of G based on its shortest path lengths.
     """
     # Convert adjacency matrix to SciPy format if needed.
-    if not sps.issparse(AG) and not isinstance(AG, np.ndarray):
-        AG = np.asarray(AG)
+    if not sps.issparse(AG):
+        # C-contiguous copy if needed: the csgraph routines reject transposed, Fortran-ordered
+        # and fancy-indexed (relabelled) dense arrays
+        AG = np.ascontiguousarray(AG)
     # csgraph routines accept only some sparse formats (e.g. not COO on every code path).
     if sps.issparse(AG):
         AG = AG.tocsr()
